@@ -14,6 +14,7 @@ import Kust.Labels
 import Kust.Image
 import Kust.OpenApi
 import Kust.FieldSpec
+import Kust.Path
 import Kust.Gen.FieldSpecs
 import Kust.Gen.Lists
 open Lean Kust
@@ -253,6 +254,38 @@ def runFieldSpec (op : String) (a : Json) : Except String Json := do
     return outToJson nodeToJson (FieldSpec.apply ns setter spec cr (g "group") (g "version") (g "kind") doc)
   | _ => throw s!"unknown fieldspec op {op}"
 
+def runPath (op : String) (a : Json) : Except String Json := do
+  let g (k : String) : String := (a.getObjValD k).getStr?.toOption.getD ""
+  match op with
+  | "clean" => return Json.mkObj [("ok", Json.arr #[Json.str (Path.clean (g "path")), Json.str (Path.join (g "a") (g "b"))])]
+  | "hasprefix" => return Json.mkObj [("ok", Json.bool (Path.hasPrefix (g "d").toList (g "p").toList))]
+  | "loader" =>
+    -- fs: [[path, "dir"|content]...] with cleaned absolute paths; ops: [["new", p] | ["load", p]] applied to a loader stack
+    let ents ← (← (a.getObjValD "fs").getArr?).toList.mapM fun e => do
+      let x ← e.getArr?
+      let p ← x[0]!.getStr?
+      let isDir := (x[1]!.getStr?.toOption.getD "") = "\u0000dir"
+      let c ← x[1]!.getStr?
+      return ((Path.compsOf p, if isDir then Path.Entry.dir else Path.Entry.file c) : List String × Path.Entry)
+    let ops ← (← (a.getObjValD "ops").getArr?).toList.mapM fun o => do
+      let x ← o.getArr?
+      return (← x[0]!.getStr?, ← x[1]!.getStr?)
+    let rec go (stack : List (List String)) : List (String × String) → List Json
+      | [] => []
+      | (k, p) :: r =>
+        if k = "new" then
+          match Path.loaderNew ents stack p with
+          | .ok c => Json.mkObj [("ok", Json.str ("/" ++ "/".intercalate c))] :: go (c :: stack) r
+          | .err c => Json.mkObj [("err", Json.str c)] :: go stack r
+          | .panic c => Json.mkObj [("panic", Json.str c)] :: go stack r
+        else
+          (match Path.loaderLoad ents (stack.headD []) p with
+          | .ok c => Json.mkObj [("ok", Json.str c)]
+          | .err c => Json.mkObj [("err", Json.str c)]
+          | .panic c => Json.mkObj [("panic", Json.str c)]) :: go stack r
+    return Json.mkObj [("ok", Json.arr (go [[]] ops).toArray)]
+  | _ => throw s!"unknown path op {op}"
+
 def dispatch (comp : String) (args : Json) : Except String Json :=
   match comp.splitOn "." with
   | ["fns", op] => runFns op args
@@ -264,6 +297,7 @@ def dispatch (comp : String) (args : Json) : Except String Json :=
   | ["image", op] => runImage op args
   | ["openapi", op] => runOpenApi op args
   | ["fieldspec", op] => runFieldSpec op args
+  | ["path", op] => runPath op args
   | _ => throw s!"unknown component {comp}"
 
 partial def loop (hin hout : IO.FS.Stream) : IO Unit := do
